@@ -211,6 +211,33 @@ func c20(c *Ctx) {
 			o.AddCase(Case{Key: "regs:binding-lookup", Desc: fmt.Sprintf("virtual register with mask %#x allocated to %s (id %d) binds to %s", v.Mask(), e.R.Asm(), e.R.ID(), outs), Input: map[string]any{"physical": e.R.Asm(), "mask": v.Mask()}, Nontrivial: true})
 		}
 	}
+	// register numbers the hardware does not have (beyond the table, at every distance from it, with the
+	// virtual bit set or clear): no view may be found for them by any of the lookup entry points
+	for _, kind := range []reg.Kind{reg.KindGP, reg.KindVector, reg.KindOpmask} {
+		var vs []reg.Register
+		switch kind {
+		case reg.KindGP:
+			vs = []reg.Register{coll.GP8L(), coll.GP8H(), coll.GP16(), coll.GP32(), coll.GP64()}
+		case reg.KindVector:
+			vs = []reg.Register{coll.XMM(), coll.YMM(), coll.ZMM()}
+		default:
+			vs = []reg.Register{coll.K()}
+		}
+		for _, idx := range []uint32{8, 16, 31, 32, 33, 64, 100, 255, 256, 257, 260, 264, 271, 272, 287, 511, 512, 515, 1024, 4096, 4100, 32768, 65280, 65281, 65535} {
+			id := reg.ID(uint32(kind)<<8 | idx<<16)
+			for _, v := range vs {
+				a := reg.NewEmptyAllocation()
+				a[v.ID()] = id
+				out := a.LookupRegister(v)
+				oc, outs := "None", "nothing"
+				if out != nil {
+					oc, outs = "(Some "+cReg(out)+")", out.Asm()
+				}
+				lrows = append(lrows, fmt.Sprintf("(%d, %d, %s)", uint64(id), uint64(v.Mask()), oc))
+				o.AddCase(Case{Key: "regs:binding-lookup:number", Desc: fmt.Sprintf("virtual register with mask %#x allocated to register number %d of kind %d binds to %s", v.Mask(), idx, kind, outs), Input: map[string]any{"kind": uint64(kind), "number": idx, "mask": v.Mask()}, Nontrivial: true})
+			}
+		}
+	}
 	var b strings.Builder
 	b.WriteString(progHeader + "From Avo Require Import Model.RegSpec Props.C20.\n")
 	fmt.Fprintf(&b, "Definition lookups : list (N * N * option reg) := %s.\n", cListNL(lrows))
